@@ -267,6 +267,14 @@ pub fn run_case(case: &Value, out: &mut Obs) {
     // the request removes the subscription (connection 1).
     {
         let c = &mut conns[0];
+        // publish requests that earlier tasks left in the session's queue time out first (untraced): a queued request would keep
+        // the new subscription alive
+        {
+            let t = c.t.clone();
+            let mut t = t.write();
+            let now = chrono::Utc::now() + chrono::Duration::seconds(1000);
+            let _ = t.verif_tick(&now);
+        }
         let h = c.header();
         let r = c.call(CreateSubscriptionRequest { request_header: h, requested_publishing_interval: 100.0, requested_lifetime_count: 3, requested_max_keep_alive_count: 1, max_notifications_per_publish: 0, publishing_enabled: true, priority: 0 }.into());
         let mut created = false;
@@ -280,14 +288,17 @@ pub fn run_case(case: &Value, out: &mut Obs) {
             for k in 1..=8 {
                 let t = c.t.clone();
                 let mut t = t.write();
-                let now = chrono::Utc::now() + chrono::Duration::seconds(10 + k);
+                let now = chrono::Utc::now() + chrono::Duration::seconds(1010 + k);
                 let _ = t.verif_tick(&now);
             }
-            let h = c.header();
-            let req: SupportedMessage = PublishRequest { request_header: h, subscription_acknowledgements: None }.into();
-            task(out, &cid, &mut i, "Publish~answers_with_the_status_change_of_an_expired_subscription", 1, || {
-                let _ = c.call(req);
-            });
+            // (other subscriptions that the variants left on the session may be served first: a few requests)
+            for k in 0..12 {
+                let h = c.header();
+                let req: SupportedMessage = PublishRequest { request_header: h, subscription_acknowledgements: None }.into();
+                task(out, &cid, &mut i, &format!("Publish~after_a_subscription_expired_{}", k + 1), 1, || {
+                    let _ = c.call(req);
+                });
+            }
         }
     }
     // The session services on their error paths (connection 1): a CreateSession on a secured channel whose client certificate
